@@ -68,11 +68,17 @@ type x13H struct {
 	seen map[string]bool
 	desc map[string]interface{}
 
-	// request class of the running request ("" = the ordinary request set, otherwise the
-	// client-gone mode, see c13_gone_test.go) and the panic signatures ordinary requests
-	// of the running case produced already
+	// request class of the running request ("" = the ordinary request set, "boundary/<dimension>/<shape>"
+	// = a boundary-shaped request, see c13_bound_test.go, otherwise the client-gone mode, see
+	// c13_gone_test.go) and the panic signatures ordinary requests of the running case produced already
 	reqClass string
 	caseSigs map[string]bool
+
+	// boundary-shaped requests (c13_bound_test.go): index of the running case (selects the
+	// window of shapes), whether the case gets the full set, and the memoised set
+	caseIdx   int
+	boundFull bool
+	bounds    []x13BReq
 }
 
 func (h *x13H) count(what string) { h.r.Count(what+"/"+h.kind, 1) }
@@ -182,6 +188,15 @@ func (h *x13H) report(phase, msg, site string) {
 		if h.caseSigs != nil {
 			h.caseSigs[sig] = true
 		}
+	} else if dim := x13BoundDim(h.reqClass); dim != "" {
+		// a panic that the ordinary requests of this case did not produce and a boundary-shaped
+		// request does: the signature names the dimension of the request that is at a boundary.
+		// (Not for the flow-node-without-request class: its cause is the configuration, every
+		// request that reaches the node panics, whatever its shape.)
+		if !h.caseSigs[sig] && !strings.HasSuffix(sig, ":flow-node-in-namespace-without-request") {
+			sig += ":on=boundary-request/" + dim
+			h.count("panics_boundary_request")
+		}
 	} else if !h.caseSigs[sig] {
 		// a panic that the ordinary requests of this case did not produce: it needs a
 		// request whose client goes away, and says so in its signature
@@ -201,7 +216,9 @@ func (h *x13H) report(phase, msg, site string) {
 		h.r.Inconclusive("more distinct panic signatures in one part than the kit can carry; split the part")
 	}
 	d := map[string]interface{}{"phase": phase, "panic": msg, "site": site}
-	if h.reqClass != "" {
+	if x13BoundDim(h.reqClass) != "" {
+		d["request"] = h.reqClass
+	} else if h.reqClass != "" {
 		d["request"] = "client-gone/" + h.reqClass
 	}
 	for k, v := range h.desc {
@@ -260,6 +277,7 @@ type x13Req struct {
 	remote  string
 	resp    int // 0 none, 1 plain, 2 gzip-labelled, 3 streaming, 4 really gzipped
 	noLimit bool
+	target  string // request target as written on the request line when it is not host+path ("*", authority form)
 }
 
 func x13Gzip(s string) string {
@@ -316,7 +334,13 @@ func (h *x13H) stdReq(q *x13Req, ctx stdcontext.Context) *http.Request {
 	if q.body != "" {
 		body = strings.NewReader(q.body)
 	}
-	r := httptest.NewRequest(q.method, "http://"+host+q.path, body).WithContext(ctx)
+	target := "http://" + host + q.path
+	if q.target != "" {
+		target = q.target
+	}
+	// (httptest.NewRequest reads the request with net/http's own server-side parser: what it
+	// returns is a request net/http hands to a handler)
+	r := httptest.NewRequest(q.method, target, body).WithContext(ctx)
 	r.Host = host
 	for _, kv := range q.hdr {
 		r.Header.Add(kv[0], kv[1])
@@ -506,6 +530,12 @@ func (h *x13H) runFilter(seed *x13Seed, tree map[string]interface{}) (accepted b
 			h.guard("consume", func() { x13Consume(ctx) })
 			return p
 		})
+		handled += h.boundary(func(q *x13Req, sctx stdcontext.Context) bool {
+			ctx := h.newCtxOn(q, false, sctx)
+			p := h.guard("handle", func() { f.Handle(ctx) })
+			h.guard("consume", func() { x13Consume(ctx) })
+			return p
+		})
 	}
 	h.guard("status", func() { f.Status() })
 	// update with an unchanged spec, the way Pipeline.reload does it
@@ -624,6 +654,12 @@ func (h *x13H) runPipeline(seed *x13Seed, tree map[string]interface{}) bool {
 		h.guard("consume", func() { x13Consume(ctx) })
 		return pn
 	})
+	handled += h.boundary(func(q *x13Req, sctx stdcontext.Context) bool {
+		ctx := h.newCtxOn(q, false, sctx)
+		pn := h.guard("handle", func() { p.Handle(ctx) })
+		h.guard("consume", func() { x13Consume(ctx) })
+		return pn
+	})
 	h.guard("status", func() { p.Status() })
 	ss2, err := supervisor.NewSpec(y)
 	if err == nil {
@@ -660,6 +696,14 @@ func (h *x13H) runGlobalFilter(seed *x13Seed, tree map[string]interface{}) bool 
 	handled += h.clientGone(func(q *x13Req, sctx stdcontext.Context) bool {
 		ctx := h.newCtxOn(q, false, sctx)
 		pn := h.guard("handle", func() { gf.Handle(ctx, h.env.mapper.pipes["be-proxy"]) })
+		h.guard("consume", func() { x13Consume(ctx) })
+		return pn
+	})
+	// boundary-shaped requests, through the two halves around each kind of routed pipeline in turn
+	handled += h.boundary(func(q *x13Req, sctx stdcontext.Context) bool {
+		ctx := h.newCtxOn(q, false, sctx)
+		pl := h.env.mapper.pipes[[]string{"be-ok", "be-proxy", "be-noresp"}[len(q.name)%3]]
+		pn := h.guard("handle", func() { gf.Handle(ctx, pl) })
 		h.guard("consume", func() { x13Consume(ctx) })
 		return pn
 	})
@@ -710,6 +754,12 @@ func (h *x13H) runHTTPServer(seed *x13Seed, tree map[string]interface{}) bool {
 	// the client goes away while the routed pipeline waits for its backend (net/http
 	// cancels the request's context when the connection is lost)
 	handled += h.clientGone(func(q *x13Req, sctx stdcontext.Context) bool {
+		stdr := h.stdReq(q, sctx)
+		w := httptest.NewRecorder()
+		return h.guard("serve", func() { m.ServeHTTP(w, stdr) })
+	})
+	// boundary-shaped requests through the real mux (every shape for every accepted HTTPServer spec)
+	handled += h.boundary(func(q *x13Req, sctx stdcontext.Context) bool {
 		stdr := h.stdReq(q, sctx)
 		w := httptest.NewRecorder()
 		return h.guard("serve", func() { m.ServeHTTP(w, stdr) })
@@ -1112,8 +1162,12 @@ func x13RunPart(t *testing.T, part string) {
 		"then (every kind with a request context) 4 CLIENT-GONE requests whose own context is cancelled (context.Canceled, not the deadline): when the filter's call has arrived at the local backend / introspection / remote end point and is kept unanswered (main pool GET, candidate pool POST with body), " +
 		"3 ms after the backend answered 503 (falls into the 20 ms back-off of the retry policy), and before the filter runs; event driven by the backend, which answers once the filter returned or 60 ms after the cancellation; " +
 		"resilience wrappers: 5 calls cancelled before / by the wrapped call (error, success) / when the failed attempt returns / 0.5 ms into the back-off; " +
-		"then Status, Inherit(unchanged spec), Close. distinct = (kind, mutation point shape, mutation class, outcome) resp. (kind, section variant tuple, outcome) resp. (kind, client-gone mode, filter still waiting, outcome); " +
-		"a panic that only a client-gone request of a case produces carries the suffix :on=client-gone")
+		"then (every kind that serves HTTP requests) BOUNDARY-SHAPED requests, each accepted by net/http's own request parser and at a boundary in one dimension of its shape: " +
+		"path-depth 1,2,127,128,255,256,257,512 segments; path-slashes 2,127,128,255,256,257,512 slashes only; long-segment 1 KiB / 64 KiB; query '?' alone / 1000 parameters / separators only; " +
+		"header-count 0,1,100,1000 header lines and 1000 values under one name; header-size 8 KiB values in the headers the seeds look at, 8 KiB header name; method one letter / lower case / extension token / OPTIONS * / CONNECT authority-form " +
+		"(all 32 shapes for every unmutated seed and through the real mux of EVERY accepted HTTPServer spec, a window of 4 shapes that moves with the case index for every other case); " +
+		"then Status, Inherit(unchanged spec), Close. distinct = (kind, mutation point shape, mutation class, outcome) resp. (kind, section variant tuple, outcome) resp. (kind, client-gone mode, filter still waiting, outcome) resp. (kind, boundary shape, outcome); " +
+		"a panic that only a client-gone request of a case produces carries the suffix :on=client-gone, one that only a boundary-shaped request produces the suffix :on=boundary-request/<dimension>")
 	r.Assume("WasmHost is not registered in this build (build tag wasmhost) and is not covered; http3=true runs against the build stub of quic-go")
 	r.Assume("HTTP filters get HTTP contexts, MQTT filters MQTT contexts (protocol mismatch between a traffic gate and its pipeline is not generated); listening ports are chosen by the harness")
 	r.Assume("Kafka/KafkaMQTT run against sarama's in-process mock broker; a spec whose (mutated) broker address is unreachable is validated but not instantiated")
@@ -1228,6 +1282,8 @@ func x13RunPart(t *testing.T, part string) {
 	r.Require("seed_accepted", 1)
 	// the client-gone request class (c13_gone_test.go) was exercised for every kind that has a request context
 	x13GoneRequire(h, kinds)
+	// the boundary-shaped request class (c13_bound_test.go): every shape of every dimension reached every kind that serves HTTP requests
+	x13BoundRequire(h, kinds)
 	// section products: every tuple of the list was run, and both verdicts of validation occurred
 	for k, n := range prodWant {
 		r.Count(x13ProdCounter(k, "total"), 0)
@@ -1251,6 +1307,7 @@ func (h *x13H) runCase(i int, c x13Case, isSeed bool) {
 	}
 	h.kind = c.seed.Kind
 	h.reqClass, h.caseSigs = "", map[string]bool{}
+	h.caseIdx, h.boundFull = i, len(c.muts) == 0
 	h.desc = map[string]interface{}{"kind": c.seed.Kind, "seed": c.seed.ID, "mutations": descs, "yaml": x13ToYAML(tree)}
 	r.Case(i, h.desc)
 	h.count("specs")
